@@ -59,7 +59,7 @@ def main():
         sh(f'git -C /repo apply {patch}')
         res = {}
         try:
-            for c in [pid] + EXTRA.get(pid, []):
+            for c in [pid] + ([] if os.environ.get('SEED_MATRIX_NO_EXTRA') else EXTRA.get(pid, [])):
                 rc, line, what = run_check(c)
                 res[c] = {'rc': rc, 'violation_line': line, 'what': what}
                 if c != pid and res[pid]['rc'] == 1 and False:
